@@ -15,7 +15,7 @@ PROPS = {
                      "rule); TLC proves them on the design for all metadata shapes (none/one/two/no-ref/mixed) and the metadata "
                      "argument of every real update()/_emit() call is compared with the specification's.",
                 note="Trusted: TLC; enc_md projection (nested lists / None are mapped to invalid tags so they cannot match)."),
-    "C16": dict(engines=["sync", "athread", "adf"], design="5/C16",
+    "C16": dict(engines=["sync", "athread", "adf", "aemit"], design="5/C16",
                 technique="TLA+ spec SyncFlow with fault injection (Call/failAt) + trace validation of real runs with raising user functions",
                 text="EmitAt(e, x, md, failAt) aborts the push at the chosen user-function invocations exactly as Python unwinds; TLC "
                      "checks RaisedIffInjected, NeverCheckpointFailed and the node contracts with failed offers removed; real runs with "
